@@ -203,9 +203,11 @@ Clear(m) ==
            mp2 == [maps EXCEPT ![m] = Empty]
            ly2 == [layers EXCEPT ![m] = [i \in DOMAIN @ |-> IF i = 1 \/ ClearAllLayers THEN Empty ELSE @[i]]]
        IN /\ maps' = mp2 /\ layers' = ly2
-          \* (every node that drops out of m here is in `gone`: Forget would change nothing)
-          /\ parent' = [n \in Nodes |-> IF n \in gone THEN None ELSE parent[n]]
-          /\ key' = [n \in Nodes |-> IF n \in gone THEN None ELSE key[n]]
+          \* every node that drops out of m here is in `gone` (no Forget needed) — except one that was moved elsewhere
+          \* and lost that place again: it drops out of every map with a link nobody reads
+          /\ LET lost == {t[3] : t \in {u \in stale : u[1] = m}}
+                 F(f) == [n \in Nodes |-> IF n \in gone \/ (n \in lost /\ ~HeldIn(mp2, ly2, n)) THEN None ELSE f[n]]
+             IN parent' = F(parent) /\ key' = F(key)
     /\ abs' = [abs EXCEPT ![m] = Empty]
     /\ stale' = {t \in stale : t[1] # m}
     /\ ret' = NoRet /\ loadedNow' = {}
@@ -387,7 +389,8 @@ ClearDetaches ==
          /\ maps'[m] = Empty /\ \A i \in DOMAIN layers'[m] : layers'[m][i] = Empty
          \* (a child that was moved elsewhere in the meantime is no longer this map's to detach)
          /\ \A c \in Range(maps[m]) \cup Range(Vis(m)) :
-               IF \E n \in Names : <<m, n, c>> \in stale THEN parent'[c] = parent[c] /\ key'[c] = key[c]
+               IF \E n \in Names : <<m, n, c>> \in stale
+               THEN (parent'[c] = parent[c] /\ key'[c] = key[c]) \/ ~HeldIn(maps', layers', c)
                ELSE parent'[c] = None /\ key'[c] = None]_vars
 
 \* ---- C12 ----
